@@ -194,6 +194,36 @@ func c08Directed(kind string) (string, string) {
 				}
 			}
 		}
+	case "unblocked-by-client":
+		// sessions that terminated (out of code without HALT at depth 0..2, or a function that sets TERMINATE), one
+		// blocked request, then client code clears TERMINATE in the stored session: it must serve requests again
+		for depth := 0; depth <= 2; depth++ {
+			for _, kind := range []string{"A0", "A1", "F0"} {
+				a := c20App(c20Spec{depth, kind, false})
+				s := newSess(a, "persisted", engine.Config{})
+				ins := []string{""}
+				for i := 0; i < depth; i++ {
+					ins = append(ins, "1")
+				}
+				ins = append(ins, "1", "1", "0")
+				for k, in := range ins {
+					if sig, msg, _ := c08Step(s, in, "persisted"); sig != "" {
+						return sig, fmt.Sprintf("ends app depth %d kind %s, request %d: %s", depth, kind, k, msg)
+					}
+				}
+				if st, _, _, err := s.Snapshot(); err != nil || !flagSet(st.Flags, 6) {
+					continue // this one did not end up blocked: nothing to ask
+				}
+				if err := s.ClearTerminate(); err != nil {
+					return "client-cannot-unblock", fmt.Sprintf("ends app depth %d kind %s: clearing TERMINATE in the stored session fails: %v", depth, kind, err)
+				}
+				for k, in := range []string{"", "1", "0", "1"} {
+					if sig, msg, _ := c08Step(s, in, "persisted"); sig != "" {
+						return sig + "-after-client-cleared-terminate", fmt.Sprintf("ends app depth %d kind %s, request %d after client code cleared TERMINATE: %s", depth, kind, k, msg)
+					}
+				}
+			}
+		}
 	case "browse-300":
 		g := c02Cfg{Rows: []string{"aaa", "bbb", "ccc", "ddd"}, Tpl: 0, Next: true, Prev: true, Size: 14}
 		a := c02App(g)
@@ -255,7 +285,7 @@ func c08Run(c *mc.Ctx) {
 	apps := corpus()
 	c.Note("corpus_apps", fmt.Sprint(len(apps)))
 	c.Note("corpus_skipped_ill_formed", strings.Join(corpusSkipped, " | "))
-	for _, kind := range []string{"descents-130", "descents-130-first", "descents-130-loadfail", "browse-300", "result-70000"} {
+	for _, kind := range []string{"descents-130", "descents-130-first", "descents-130-loadfail", "unblocked-by-client", "browse-300", "result-70000"} {
 		if !c.Mine() {
 			continue
 		}
